@@ -448,3 +448,12 @@ Inductive reorder : jv -> jv -> Prop :=
     Forall2 (fun a b => fst a = fst b /\ reorder (snd a) (snd b)) m1 m2 ->
     NoDup (map fst m1) -> Permutation m2 m3 -> reorder (JObj m1) (JObj m3).
 
+
+(* the value up to the order of members and the resolution of duplicate members (the last one wins):
+   members sorted by name, recursively *)
+Fixpoint jnorm (v : jv) : jv :=
+  match v with
+  | JArr l => JArr (map jnorm l)
+  | JObj m => JObj (sort_members (map (fun kv => (fst kv, jnorm (snd kv))) m))
+  | _ => v
+  end.
